@@ -1775,6 +1775,10 @@ class _multivalued(Deb822):
             except KeyError:
                 continue
 
+            if not isinstance(contents, str):
+                # constructed from a mapping: the field already holds records
+                continue
+
             if self.is_multi_line(contents) or not contents.strip():
                 # (an empty field is the empty list of records)
                 self[field] = []    # type: ignore
